@@ -96,6 +96,7 @@ RL2Ufunc(f, x, y) ==      \* operands: <<"obj", obj>> | <<"py", pk, v>> | <<"col
      ELSE IF f \notin Binary \/ NoLoop(f, rt) THEN R_UNSPEC
      ELSE IF RTag(other) = "col" /\ Len(other[3]) # Len(rows) THEN R_UNSPEC
      ELSE IF RTag(other) = "py" /\ ((other[2] = "pyfloat" /\ ~IsFlt(rt)) \/ (other[2] # "pyfloat" /\ ~IsFlt(rt) /\ ~Fits(rt, other[3]))) THEN R_UNSPEC
+     ELSE IF \E r \in DOMAIN rows : \E c \in DOMAIN rows[r] : ~BitInRegime(f, rt, Cast(dto, rt, rows[r][c]), OV(r)) THEN R_UNSPEC
      ELSE <<"rlrows", OutType(f, rt), [r \in DOMAIN rows |-> [c \in DOMAIN rows[r] |-> cell(r, c)]]>>
 RL2Concat(objs) ==
   IF objs = <<>> \/ \E k \in DOMAIN objs : ~ValidObj(objs[k]) \/ ~IsRaggedVariant(objs[k]) \/ DTOf(objs[k]) # DTOf(objs[1]) THEN R_UNSPEC
